@@ -25,6 +25,7 @@ operations, hence on every reachable state.
 import Proofs.NoUbCratesV1
 import Properties.C07V1
 import EngineModel.Api.GuardedCratesV1
+import Proofs.C15GuardValues
 
 namespace EngineModel.Properties.C15CratesV1
 open EngineModel EngineModel.Api.CratesV1 EngineModel.Api.CratesV1.C15 EngineModel.Pure.Detect
@@ -59,7 +60,8 @@ theorem v1c_C15_queries_no_ub (db : Db) (c : Id) (u : Ub) :
     (c ∉ ids db → crateNameG (fun _ => false) db c = .ub .empty_optional) ∧
     crateIsValid db c ≠ .ub u ∧ crateParent db c ≠ .ub u ∧ dbCrateById db c ≠ .ub u ∧ trackIsValid db c ≠ .ub u := by
   have heq : crateNameSrc db c = crateName db c := by
-    unfold crateNameSrc crateNameG crateName Gen.C15Guards.v1_crate_name_none
+    unfold crateNameSrc crateNameG crateName
+    simp only [Gen.C15Guards.v1_crate_name_none_eq]
     cases h : (db.crate.filter (·.id == c)).map (·.title) with
     | nil => rfl
     | cons a l =>
